@@ -1330,10 +1330,14 @@ seq_t dtw_warping_paths_ndim(seq_t *wps,
 //    dtw_print_wps(wps, l1, l2, settings);
 
     seq_t rvalue = 0;
-    idx_t final_wpsi = ri_widthp + wpsi - 1;
+    // Cells are addressed through the compact layout: rows can be shifted, the last column can
+    // lie outside the band of a row, and the index left behind by the loops above is not
+    // reliable when the last row stopped early.
+    idx_t loc_cb = 0, loc_ce = 0, loc_base = 0;
     // Deal with Psi-relaxation
     if (return_dtw && settings->psi_1e == 0 && settings->psi_2e == 0) {
-        rvalue = wps[final_wpsi];
+        loc_base = dtw_wps_loc_columns(&p, l1, &loc_cb, &loc_ce, l1, l2);
+        rvalue = wps[loc_base + l2 - loc_cb];
     } else if (return_dtw) {
         seq_t mir_value = INFINITY;
         idx_t mir_rel = 0;
@@ -1341,28 +1345,28 @@ seq_t dtw_warping_paths_ndim(seq_t *wps,
         idx_t mic = 0;
         // Find smallest value in last column
         if (settings->psi_1e != 0) {
-            wpsi = final_wpsi;
-            for (ri=l1-1; ri>l1-settings->psi_1e-2; ri--) {
-                if (wps[wpsi] < mir_value) {
-                    mir_value = wps[wpsi];
-                    mir_rel = ri + 1;
-                } else {
-                    // pass
+            for (ri=l1-1; ri>l1-settings->psi_1e-2 && ri>=0; ri--) {
+                loc_base = dtw_wps_loc_columns(&p, ri+1, &loc_cb, &loc_ce, l1, l2);
+                if (loc_cb <= l2 && l2 < loc_ce) {
+                    wpsi = loc_base + l2 - loc_cb;
+                    if (wps[wpsi] < mir_value) {
+                        mir_value = wps[wpsi];
+                        mir_rel = ri + 1;
+                    }
                 }
-                wpsi -= p.width;
             }
         }
         // Find smallest value in last row
         if (settings->psi_2e != 0) {
-            wpsi = final_wpsi;
-            for (ci=l2-1; ci>l2-settings->psi_2e-2; ci--) {
-                if (wps[wpsi] < mic_value) {
-                    mic_value = wps[wpsi];
-                    mic = ci + 1;
-                } else {
-                    // pass
+            loc_base = dtw_wps_loc_columns(&p, l1, &loc_cb, &loc_ce, l1, l2);
+            for (ci=l2-1; ci>l2-settings->psi_2e-2 && ci>=0; ci--) {
+                if (loc_cb <= ci+1 && ci+1 < loc_ce) {
+                    wpsi = loc_base + ci + 1 - loc_cb;
+                    if (wps[wpsi] < mic_value) {
+                        mic_value = wps[wpsi];
+                        mic = ci + 1;
+                    }
                 }
-                wpsi -= 1;
             }
         }
         // Set values with higher indices than the smallest value to -1
@@ -1370,21 +1374,22 @@ seq_t dtw_warping_paths_ndim(seq_t *wps,
         if (mir_value < mic_value) {
             // last column has smallest value
             if (psi_neg) {
-                for (idx_t ri=mir_rel + 1; ri<l1 + 1; ri++) {
-                    wpsi = ri*p.width + (p.width - 1);
-                    wps[wpsi] = -1;
+                for (idx_t rj=mir_rel + 1; rj<l1 + 1; rj++) {
+                    loc_base = dtw_wps_loc_columns(&p, rj, &loc_cb, &loc_ce, l1, l2);
+                    if (loc_cb <= l2 && l2 < loc_ce) {
+                        wps[loc_base + l2 - loc_cb] = -1;
+                    }
                 }
             }
             rvalue = mir_value;
         } else {
             // last row has smallest value
             if (psi_neg) {
-                for (ci=p.width - (l2 - mic); ci<p.width; ci++) {
-                    wpsi = l1*p.width + ci;
-                    if (p.window != 0 && p.window != l2) {
-                        wpsi--;
+                loc_base = dtw_wps_loc_columns(&p, l1, &loc_cb, &loc_ce, l1, l2);
+                for (idx_t cj=mic + 1; cj<l2 + 1; cj++) {
+                    if (loc_cb <= cj && cj < loc_ce) {
+                        wps[loc_base + cj - loc_cb] = -1;
                     }
-                    wps[wpsi] = -1;
                 }
             }
             rvalue =  mic_value;
@@ -1708,10 +1713,14 @@ seq_t dtw_warping_paths_ndim_euclidean(seq_t *wps,
 //    dtw_print_wps(wps, l1, l2, settings);
 
     seq_t rvalue = 0;
-    idx_t final_wpsi = ri_widthp + wpsi - 1;
+    // Cells are addressed through the compact layout: rows can be shifted, the last column can
+    // lie outside the band of a row, and the index left behind by the loops above is not
+    // reliable when the last row stopped early.
+    idx_t loc_cb = 0, loc_ce = 0, loc_base = 0;
     // Deal with Psi-relaxation
     if (return_dtw && settings->psi_1e == 0 && settings->psi_2e == 0) {
-        rvalue = wps[final_wpsi];
+        loc_base = dtw_wps_loc_columns(&p, l1, &loc_cb, &loc_ce, l1, l2);
+        rvalue = wps[loc_base + l2 - loc_cb];
     } else if (return_dtw) {
         seq_t mir_value = INFINITY;
         idx_t mir_rel = 0;
@@ -1719,28 +1728,28 @@ seq_t dtw_warping_paths_ndim_euclidean(seq_t *wps,
         idx_t mic = 0;
         // Find smallest value in last column
         if (settings->psi_1e != 0) {
-            wpsi = final_wpsi;
-            for (ri=l1-1; ri>l1-settings->psi_1e-2; ri--) {
-                if (wps[wpsi] < mir_value) {
-                    mir_value = wps[wpsi];
-                    mir_rel = ri + 1;
-                } else {
-                    // pass
+            for (ri=l1-1; ri>l1-settings->psi_1e-2 && ri>=0; ri--) {
+                loc_base = dtw_wps_loc_columns(&p, ri+1, &loc_cb, &loc_ce, l1, l2);
+                if (loc_cb <= l2 && l2 < loc_ce) {
+                    wpsi = loc_base + l2 - loc_cb;
+                    if (wps[wpsi] < mir_value) {
+                        mir_value = wps[wpsi];
+                        mir_rel = ri + 1;
+                    }
                 }
-                wpsi -= p.width;
             }
         }
         // Find smallest value in last row
         if (settings->psi_2e != 0) {
-            wpsi = final_wpsi;
-            for (ci=l2-1; ci>l2-settings->psi_2e-2; ci--) {
-                if (wps[wpsi] < mic_value) {
-                    mic_value = wps[wpsi];
-                    mic = ci + 1;
-                } else {
-                    // pass
+            loc_base = dtw_wps_loc_columns(&p, l1, &loc_cb, &loc_ce, l1, l2);
+            for (ci=l2-1; ci>l2-settings->psi_2e-2 && ci>=0; ci--) {
+                if (loc_cb <= ci+1 && ci+1 < loc_ce) {
+                    wpsi = loc_base + ci + 1 - loc_cb;
+                    if (wps[wpsi] < mic_value) {
+                        mic_value = wps[wpsi];
+                        mic = ci + 1;
+                    }
                 }
-                wpsi -= 1;
             }
         }
         // Set values with higher indices than the smallest value to -1
@@ -1748,21 +1757,22 @@ seq_t dtw_warping_paths_ndim_euclidean(seq_t *wps,
         if (mir_value < mic_value) {
             // last column has smallest value
             if (psi_neg) {
-                for (idx_t ri=mir_rel + 1; ri<l1 + 1; ri++) {
-                    wpsi = ri*p.width + (p.width - 1);
-                    wps[wpsi] = -1;
+                for (idx_t rj=mir_rel + 1; rj<l1 + 1; rj++) {
+                    loc_base = dtw_wps_loc_columns(&p, rj, &loc_cb, &loc_ce, l1, l2);
+                    if (loc_cb <= l2 && l2 < loc_ce) {
+                        wps[loc_base + l2 - loc_cb] = -1;
+                    }
                 }
             }
             rvalue = mir_value;
         } else {
             // last row has smallest value
             if (psi_neg) {
-                for (ci=p.width - (l2 - mic); ci<p.width; ci++) {
-                    wpsi = l1*p.width + ci;
-                    if (p.window != 0 && p.window != l2) {
-                        wpsi--;
+                loc_base = dtw_wps_loc_columns(&p, l1, &loc_cb, &loc_ce, l1, l2);
+                for (idx_t cj=mic + 1; cj<l2 + 1; cj++) {
+                    if (loc_cb <= cj && cj < loc_ce) {
+                        wps[loc_base + cj - loc_cb] = -1;
                     }
-                    wps[wpsi] = -1;
                 }
             }
             rvalue =  mic_value;
@@ -1808,127 +1818,36 @@ void dtw_expand_wps_slice(seq_t *wps, seq_t *full,
                     idx_t rb, idx_t re, idx_t cb, idx_t ce,
                     DTWSettings *settings) {
     DTWWps p = dtw_wps_parts(l1, l2, settings);
-
-    idx_t ri, ci, min_ci, max_ci, wpsi, wpsi_start;
-    idx_t rbs = 0;
-    if (rb > 0) { rbs = rb - 1; }
-    idx_t res = 0;
-    if (re > 0) { res = re - 1; }
-    idx_t cbs = 0;
-    if (cb > 0) { cbs = cb - 1; }
-    idx_t ces = 0;
-    if (ce > 0) { ces = ce - 1; }
+    idx_t ri, ci, min_ci, max_ci, wpsi;
     idx_t fwidth = ce - cb;
-
     for (idx_t i=0; i<(re-rb)*(ce-cb); i++) {
         full[i] = INFINITY;
     }
-
-    // Top row: ri = -1
-    if (rb == 0 && cb == 0) {
-        full[0] = wps[0];
-    }
-    if (rb == 0) {
-        wpsi = 1 + cbs;
-        for (ci=cbs; ci<MIN3(ces, p.width - 1, l2); ci++) {
-            full[wpsi-cbs] = wps[wpsi];
-            wpsi++;
+    // Every row is located through the compact layout (dtw_wps_loc_columns): rows of parts C
+    // and D are shifted, so neither a fixed column offset nor the first compact column can be
+    // used for them, and all writes are relative to the slice origin (rb, cb).
+    for (ri=rb; ri<re; ri++) {
+        if (ri == 0) {
+            // Top row: the compact row holds the first `width` border cells,
+            // the remaining ones follow from the psi-relaxation
+            for (ci=cb; ci<MIN(ce, l2 + 1); ci++) {
+                if (ci < p.width) {
+                    full[ci - cb] = wps[ci];
+                } else if (ci <= settings->psi_2b) {
+                    full[ci - cb] = 0;
+                }
+            }
+            continue;
         }
-    }
-
-    // A. Rows: 0 <= ri < min(overlap_left_ri, overlap_right_ri)
-    if (rbs < p.ri1) {
-        min_ci = 0;
-        max_ci = p.window + p.ldiffc; // ri < overlap_right_i
-        max_ci += rbs;
-        for (ri=rbs; ri<MIN(res, p.ri1); ri++) {
-            if (cbs == 0) {
-                full[fwidth*(ri + 1)] = wps[p.width*(ri + 1)];
-            }
-            if (cbs <= min_ci) {
-                wpsi = 1;
-            } else {
-                wpsi = 1 + (cbs - min_ci);
-            }
-            for (ci=MAX(cbs, min_ci); ci<MIN(ces, max_ci); ci++) {
-                full[(ri+1-rb)*fwidth + ci + 1 - cb] = wps[(ri+1)*p.width + wpsi];
-                wpsi++;
-            }
-            max_ci++;
+        wpsi = dtw_wps_loc_columns(&p, ri, &min_ci, &max_ci, l1, l2);
+        max_ci = MIN(max_ci, l2 + 1);
+        for (ci=MAX(cb, min_ci); ci<MIN(ce, max_ci); ci++) {
+            full[(ri-rb)*fwidth + ci - cb] = wps[wpsi + ci - min_ci];
         }
-    }
-
-    // B. Rows: min(overlap_left_ri, overlap_right_ri) <= ri < overlap_left_ri
-    min_ci = cbs;
-    max_ci = MIN(ces, l2); // ri >= overlap_right_i
-    if (rbs < p.ri2) {
-        for (ri=MAX(rbs, p.ri1); ri<MIN(res, p.ri2); ri++) {
-            if (cbs == 0) {
-                full[fwidth*(ri + 1)] = wps[p.width*(ri + 1)];
-            }
-            if (cbs <= min_ci) {
-                wpsi = 1;
-            } else {
-                wpsi = 1 + (cbs - min_ci);
-            }
-            for (ci=MAX(cbs, min_ci); ci<MIN(ces, max_ci); ci++) {
-                full[(ri+1-rb)*fwidth + ci + 1 - cb] = wps[(ri+1)*p.width + wpsi];
-                wpsi++;
-            }
+        if (cb == 0 && min_ci > 0 && ri <= settings->psi_1b) {
+            // First column is not part of the compact row, it only depends on the psi-relaxation
+            full[(ri-rb)*fwidth] = 0;
         }
-    }
-
-    // C. Rows: overlap_left_ri <= ri < MAX(parts.overlap_left_ri, parts.overlap_right_ri)
-    min_ci = 1;
-    max_ci = 1 + 2 * p.window - 1 + p.ldiff;
-    if (rbs < p.ri3) {
-        // if (rbs > p.ri2) {
-        //     min_ci += rbs - p.ri2;
-        //     max_ci += rbs - p.ri2;
-        // }
-        for (ri=MAX(rbs, p.ri2); ri<MIN(res, p.ri3); ri++) {
-            if (cbs == 0) {
-                full[(ri+1)*fwidth + min_ci] = wps[(ri+1)*p.width + 0];
-            }
-            if (cbs <= min_ci) {
-                wpsi = 1;
-            } else {
-                wpsi = 1 + (cbs - min_ci);
-            }
-            for (ci=MAX(cbs, min_ci); ci<MIN(ces, max_ci); ci++) {
-                full[(ri+1-rb)*fwidth + ci + 1 - cb] = wps[(ri+1)*p.width + wpsi];
-                wpsi++;
-            }
-            min_ci++;
-            max_ci++;
-        }
-    }
-
-    // D. Rows: MAX(overlap_left_ri, overlap_right_ri) < ri <= l1
-    min_ci = p.ri3 + 1 - p.window - p.ldiffr;
-    wpsi_start = 2;
-    if (p.ri2 == p.ri3) {
-        // C is skipped
-        wpsi_start = min_ci + 1;
-    } else {
-        min_ci = 1 + p.ri3 - p.ri2;
-    }
-    // if (rbs > p.ri3) {
-    //     min_ci += rbs - p.ri3;
-    //     wpsi_start += rbs - p.ri3;
-    // }
-    for (ri=MAX(rbs, p.ri3); ri<MIN(res, l1); ri++) {
-        if (cbs <= min_ci) {
-            wpsi = wpsi_start;
-        } else {
-            wpsi = wpsi_start + (cbs - min_ci);
-        }
-        for (ci=MAX(cbs, min_ci); ci<MIN(ces, l2); ci++) {
-            full[(ri+1-rb)*fwidth + ci + 1 - cb] = wps[(ri+1)*p.width + wpsi];
-            wpsi++;
-        }
-        min_ci++;
-        wpsi_start++;
     }
 }
 
@@ -2202,10 +2121,14 @@ seq_t dtw_warping_paths_affinity_ndim(seq_t *wps,
 //    dtw_print_wps(wps, l1, l2, settings);
 
     seq_t rvalue = 0;
-    idx_t final_wpsi = ri_widthp + wpsi - 1;
+    // Cells are addressed through the compact layout: rows can be shifted, the last column can
+    // lie outside the band of a row, and the index left behind by the loops above is not
+    // reliable when the last row stopped early.
+    idx_t loc_cb = 0, loc_ce = 0, loc_base = 0;
     // Deal with Psi-relaxation
     if (return_dtw && settings->psi_1e == 0 && settings->psi_2e == 0) {
-        rvalue = wps[final_wpsi];
+        loc_base = dtw_wps_loc_columns(&p, l1, &loc_cb, &loc_ce, l1, l2);
+        rvalue = wps[loc_base + l2 - loc_cb];
     } else if (return_dtw) {
         seq_t mir_value = -INFINITY;
         idx_t mir_rel = 0;
@@ -2213,28 +2136,28 @@ seq_t dtw_warping_paths_affinity_ndim(seq_t *wps,
         idx_t mic = 0;
         // Find smallest value in last column
         if (settings->psi_1e != 0) {
-            wpsi = final_wpsi;
-            for (ri=l1-1; ri>l1-settings->psi_1e-2; ri--) {
-                if (wps[wpsi] < mir_value) {
-                    mir_value = wps[wpsi];
-                    mir_rel = ri + 1;
-                } else {
-                    // pass
+            for (ri=l1-1; ri>l1-settings->psi_1e-2 && ri>=0; ri--) {
+                loc_base = dtw_wps_loc_columns(&p, ri+1, &loc_cb, &loc_ce, l1, l2);
+                if (loc_cb <= l2 && l2 < loc_ce) {
+                    wpsi = loc_base + l2 - loc_cb;
+                    if (wps[wpsi] < mir_value) {
+                        mir_value = wps[wpsi];
+                        mir_rel = ri + 1;
+                    }
                 }
-                wpsi -= p.width;
             }
         }
         // Find smallest value in last row
         if (settings->psi_2e != 0) {
-            wpsi = final_wpsi;
-            for (ci=l2-1; ci>l2-settings->psi_2e-2; ci--) {
-                if (wps[wpsi] < mic_value) {
-                    mic_value = wps[wpsi];
-                    mic = ci + 1;
-                } else {
-                    // pass
+            loc_base = dtw_wps_loc_columns(&p, l1, &loc_cb, &loc_ce, l1, l2);
+            for (ci=l2-1; ci>l2-settings->psi_2e-2 && ci>=0; ci--) {
+                if (loc_cb <= ci+1 && ci+1 < loc_ce) {
+                    wpsi = loc_base + ci + 1 - loc_cb;
+                    if (wps[wpsi] < mic_value) {
+                        mic_value = wps[wpsi];
+                        mic = ci + 1;
+                    }
                 }
-                wpsi -= 1;
             }
         }
         // Set values with higher indices than the smallest value to -1
@@ -2242,21 +2165,22 @@ seq_t dtw_warping_paths_affinity_ndim(seq_t *wps,
         if (mir_value < mic_value) {
             // last column has smallest value
             if (psi_neg) {
-                for (idx_t ri=mir_rel + 1; ri<l1 + 1; ri++) {
-                    wpsi = ri*p.width + (p.width - 1);
-                    wps[wpsi] = -1;
+                for (idx_t rj=mir_rel + 1; rj<l1 + 1; rj++) {
+                    loc_base = dtw_wps_loc_columns(&p, rj, &loc_cb, &loc_ce, l1, l2);
+                    if (loc_cb <= l2 && l2 < loc_ce) {
+                        wps[loc_base + l2 - loc_cb] = -1;
+                    }
                 }
             }
             rvalue = mir_value;
         } else {
             // last row has smallest value
             if (psi_neg) {
-                for (ci=p.width - (l2 - mic); ci<p.width; ci++) {
-                    wpsi = l1*p.width + ci;
-                    if (p.window != 0 && p.window != l2) {
-                        wpsi--;
+                loc_base = dtw_wps_loc_columns(&p, l1, &loc_cb, &loc_ce, l1, l2);
+                for (idx_t cj=mic + 1; cj<l2 + 1; cj++) {
+                    if (loc_cb <= cj && cj < loc_ce) {
+                        wps[loc_base + cj - loc_cb] = -1;
                     }
-                    wps[wpsi] = -1;
                 }
             }
             rvalue =  mic_value;
@@ -2541,10 +2465,14 @@ seq_t dtw_warping_paths_affinity_ndim_euclidean(seq_t *wps,
 //    dtw_print_wps(wps, l1, l2, settings);
 
     seq_t rvalue = 0;
-    idx_t final_wpsi = ri_widthp + wpsi - 1;
+    // Cells are addressed through the compact layout: rows can be shifted, the last column can
+    // lie outside the band of a row, and the index left behind by the loops above is not
+    // reliable when the last row stopped early.
+    idx_t loc_cb = 0, loc_ce = 0, loc_base = 0;
     // Deal with Psi-relaxation
     if (return_dtw && settings->psi_1e == 0 && settings->psi_2e == 0) {
-        rvalue = wps[final_wpsi];
+        loc_base = dtw_wps_loc_columns(&p, l1, &loc_cb, &loc_ce, l1, l2);
+        rvalue = wps[loc_base + l2 - loc_cb];
     } else if (return_dtw) {
         seq_t mir_value = -INFINITY;
         idx_t mir_rel = 0;
@@ -2552,28 +2480,28 @@ seq_t dtw_warping_paths_affinity_ndim_euclidean(seq_t *wps,
         idx_t mic = 0;
         // Find smallest value in last column
         if (settings->psi_1e != 0) {
-            wpsi = final_wpsi;
-            for (ri=l1-1; ri>l1-settings->psi_1e-2; ri--) {
-                if (wps[wpsi] < mir_value) {
-                    mir_value = wps[wpsi];
-                    mir_rel = ri + 1;
-                } else {
-                    // pass
+            for (ri=l1-1; ri>l1-settings->psi_1e-2 && ri>=0; ri--) {
+                loc_base = dtw_wps_loc_columns(&p, ri+1, &loc_cb, &loc_ce, l1, l2);
+                if (loc_cb <= l2 && l2 < loc_ce) {
+                    wpsi = loc_base + l2 - loc_cb;
+                    if (wps[wpsi] < mir_value) {
+                        mir_value = wps[wpsi];
+                        mir_rel = ri + 1;
+                    }
                 }
-                wpsi -= p.width;
             }
         }
         // Find smallest value in last row
         if (settings->psi_2e != 0) {
-            wpsi = final_wpsi;
-            for (ci=l2-1; ci>l2-settings->psi_2e-2; ci--) {
-                if (wps[wpsi] < mic_value) {
-                    mic_value = wps[wpsi];
-                    mic = ci + 1;
-                } else {
-                    // pass
+            loc_base = dtw_wps_loc_columns(&p, l1, &loc_cb, &loc_ce, l1, l2);
+            for (ci=l2-1; ci>l2-settings->psi_2e-2 && ci>=0; ci--) {
+                if (loc_cb <= ci+1 && ci+1 < loc_ce) {
+                    wpsi = loc_base + ci + 1 - loc_cb;
+                    if (wps[wpsi] < mic_value) {
+                        mic_value = wps[wpsi];
+                        mic = ci + 1;
+                    }
                 }
-                wpsi -= 1;
             }
         }
         // Set values with higher indices than the smallest value to -1
@@ -2581,21 +2509,22 @@ seq_t dtw_warping_paths_affinity_ndim_euclidean(seq_t *wps,
         if (mir_value < mic_value) {
             // last column has smallest value
             if (psi_neg) {
-                for (idx_t ri=mir_rel + 1; ri<l1 + 1; ri++) {
-                    wpsi = ri*p.width + (p.width - 1);
-                    wps[wpsi] = -1;
+                for (idx_t rj=mir_rel + 1; rj<l1 + 1; rj++) {
+                    loc_base = dtw_wps_loc_columns(&p, rj, &loc_cb, &loc_ce, l1, l2);
+                    if (loc_cb <= l2 && l2 < loc_ce) {
+                        wps[loc_base + l2 - loc_cb] = -1;
+                    }
                 }
             }
             rvalue = mir_value;
         } else {
             // last row has smallest value
             if (psi_neg) {
-                for (ci=p.width - (l2 - mic); ci<p.width; ci++) {
-                    wpsi = l1*p.width + ci;
-                    if (p.window != 0 && p.window != l2) {
-                        wpsi--;
+                loc_base = dtw_wps_loc_columns(&p, l1, &loc_cb, &loc_ce, l1, l2);
+                for (idx_t cj=mic + 1; cj<l2 + 1; cj++) {
+                    if (loc_cb <= cj && cj < loc_ce) {
+                        wps[loc_base + cj - loc_cb] = -1;
                     }
-                    wps[wpsi] = -1;
                 }
             }
             rvalue =  mic_value;
@@ -2641,127 +2570,36 @@ void dtw_expand_wps_slice_affinity(seq_t *wps, seq_t *full,
                     idx_t rb, idx_t re, idx_t cb, idx_t ce,
                     DTWSettings *settings) {
     DTWWps p = dtw_wps_parts(l1, l2, settings);
-
-    idx_t ri, ci, min_ci, max_ci, wpsi, wpsi_start;
-    idx_t rbs = 0;
-    if (rb > 0) { rbs = rb - 1; }
-    idx_t res = 0;
-    if (re > 0) { res = re - 1; }
-    idx_t cbs = 0;
-    if (cb > 0) { cbs = cb - 1; }
-    idx_t ces = 0;
-    if (ce > 0) { ces = ce - 1; }
+    idx_t ri, ci, min_ci, max_ci, wpsi;
     idx_t fwidth = ce - cb;
-
     for (idx_t i=0; i<(re-rb)*(ce-cb); i++) {
         full[i] = -INFINITY;
     }
-
-    // Top row: ri = -1
-    if (rb == 0 && cb == 0) {
-        full[0] = wps[0];
-    }
-    if (rb == 0) {
-        wpsi = 1 + cbs;
-        for (ci=cbs; ci<MIN3(ces, p.width - 1, l2); ci++) {
-            full[wpsi-cbs] = wps[wpsi];
-            wpsi++;
+    // Every row is located through the compact layout (dtw_wps_loc_columns): rows of parts C
+    // and D are shifted, so neither a fixed column offset nor the first compact column can be
+    // used for them, and all writes are relative to the slice origin (rb, cb).
+    for (ri=rb; ri<re; ri++) {
+        if (ri == 0) {
+            // Top row: the compact row holds the first `width` border cells,
+            // the remaining ones follow from the psi-relaxation
+            for (ci=cb; ci<MIN(ce, l2 + 1); ci++) {
+                if (ci < p.width) {
+                    full[ci - cb] = wps[ci];
+                } else if (ci <= settings->psi_2b) {
+                    full[ci - cb] = 0;
+                }
+            }
+            continue;
         }
-    }
-
-    // A. Rows: 0 <= ri < min(overlap_left_ri, overlap_right_ri)
-    if (rbs < p.ri1) {
-        min_ci = 0;
-        max_ci = p.window + p.ldiffc; // ri < overlap_right_i
-        max_ci += rbs;
-        for (ri=rbs; ri<MIN(res, p.ri1); ri++) {
-            if (cbs == 0) {
-                full[fwidth*(ri + 1)] = wps[p.width*(ri + 1)];
-            }
-            if (cbs <= min_ci) {
-                wpsi = 1;
-            } else {
-                wpsi = 1 + (cbs - min_ci);
-            }
-            for (ci=MAX(cbs, min_ci); ci<MIN(ces, max_ci); ci++) {
-                full[(ri+1-rb)*fwidth + ci + 1 - cb] = wps[(ri+1)*p.width + wpsi];
-                wpsi++;
-            }
-            max_ci++;
+        wpsi = dtw_wps_loc_columns(&p, ri, &min_ci, &max_ci, l1, l2);
+        max_ci = MIN(max_ci, l2 + 1);
+        for (ci=MAX(cb, min_ci); ci<MIN(ce, max_ci); ci++) {
+            full[(ri-rb)*fwidth + ci - cb] = wps[wpsi + ci - min_ci];
         }
-    }
-
-    // B. Rows: min(overlap_left_ri, overlap_right_ri) <= ri < overlap_left_ri
-    min_ci = cbs;
-    max_ci = MIN(ces, l2); // ri >= overlap_right_i
-    if (rbs < p.ri2) {
-        for (ri=MAX(rbs, p.ri1); ri<MIN(res, p.ri2); ri++) {
-            if (cbs == 0) {
-                full[fwidth*(ri + 1)] = wps[p.width*(ri + 1)];
-            }
-            if (cbs <= min_ci) {
-                wpsi = 1;
-            } else {
-                wpsi = 1 + (cbs - min_ci);
-            }
-            for (ci=MAX(cbs, min_ci); ci<MIN(ces, max_ci); ci++) {
-                full[(ri+1-rb)*fwidth + ci + 1 - cb] = wps[(ri+1)*p.width + wpsi];
-                wpsi++;
-            }
+        if (cb == 0 && min_ci > 0 && ri <= settings->psi_1b) {
+            // First column is not part of the compact row, it only depends on the psi-relaxation
+            full[(ri-rb)*fwidth] = 0;
         }
-    }
-
-    // C. Rows: overlap_left_ri <= ri < MAX(parts.overlap_left_ri, parts.overlap_right_ri)
-    min_ci = 1;
-    max_ci = 1 + 2 * p.window - 1 + p.ldiff;
-    if (rbs < p.ri3) {
-        // if (rbs > p.ri2) {
-        //     min_ci += rbs - p.ri2;
-        //     max_ci += rbs - p.ri2;
-        // }
-        for (ri=MAX(rbs, p.ri2); ri<MIN(res, p.ri3); ri++) {
-            if (cbs == 0) {
-                full[(ri+1)*fwidth + min_ci] = wps[(ri+1)*p.width + 0];
-            }
-            if (cbs <= min_ci) {
-                wpsi = 1;
-            } else {
-                wpsi = 1 + (cbs - min_ci);
-            }
-            for (ci=MAX(cbs, min_ci); ci<MIN(ces, max_ci); ci++) {
-                full[(ri+1-rb)*fwidth + ci + 1 - cb] = wps[(ri+1)*p.width + wpsi];
-                wpsi++;
-            }
-            min_ci++;
-            max_ci++;
-        }
-    }
-
-    // D. Rows: MAX(overlap_left_ri, overlap_right_ri) < ri <= l1
-    min_ci = p.ri3 + 1 - p.window - p.ldiffr;
-    wpsi_start = 2;
-    if (p.ri2 == p.ri3) {
-        // C is skipped
-        wpsi_start = min_ci + 1;
-    } else {
-        min_ci = 1 + p.ri3 - p.ri2;
-    }
-    // if (rbs > p.ri3) {
-    //     min_ci += rbs - p.ri3;
-    //     wpsi_start += rbs - p.ri3;
-    // }
-    for (ri=MAX(rbs, p.ri3); ri<MIN(res, l1); ri++) {
-        if (cbs <= min_ci) {
-            wpsi = wpsi_start;
-        } else {
-            wpsi = wpsi_start + (cbs - min_ci);
-        }
-        for (ci=MAX(cbs, min_ci); ci<MIN(ces, l2); ci++) {
-            full[(ri+1-rb)*fwidth + ci + 1 - cb] = wps[(ri+1)*p.width + wpsi];
-            wpsi++;
-        }
-        min_ci++;
-        wpsi_start++;
     }
 }
 
